@@ -284,7 +284,7 @@ ADD_TEXT_R9 = {
     "C04": " The operand-level $not also as a child of operand-level $and / $or / $and_any_order.",
     "C05": " Form ranged-user-after-rebinding (item, $and / $or group, $not, $not around a ranged group - all using a capture whose definition sits between optional items, F47); capture names that look like a family (&framereg-old.64 / .32); capture names spelled through a string macro.",
     "C06": " One rip-relative rule in three names the base alone; one rule in four is delivered through a one-argument macro whose formal is a short name contained in the literal fields.",
-    "C07": " Fixed family deref-as-item ($deref where an instruction is expected: rejected, or aligned matches, F51); a one-address range that tags a call / jmp target of the listing, the model tagged accordingly.",
+    "C07": " Fixed family deref-as-item ($deref where an instruction is expected: rejected, or aligned matches, F51); a one-address range that tags a call / jmp target of the listing, the model tagged accordingly; fixed family evex: six real AVX-512 lines with an indexed, decorated memory operand - one wildcard item per operand finds them, one more finds nothing.",
     "C08": " Symbol names as objdump -C prints them (templates with '> ', commas, parentheses); one objdump call in five runs on a hard link with a bare hexadecimal name.",
     "C09": " Exact-length long listings around 4096 .. 131072 instructions.",
     "C10": " Family sectioned: long listings of several sections, the stream asked for with rules that occur early / late / never, first-match and all-matches.",
